@@ -155,7 +155,14 @@ private theorem core_equiv {reg : Reg} (hagree : CustomAgree reg) {recL : Ty →
   | null => simp [vfaCore, coerceCore, Lit.isNull, JV.isNull]
   | nonNull _ h' => simp [Ty.isNonNull] at hnn
   | intInt hk => exact congrArg _ (by simp [vfaCore, coerceCore, Lit.isNull, JV.isNull, hk, isScalarLit, parseLiteral, hadmI, coerceInt])
-  | floatInt hk => exact congrArg _ (by simp [vfaCore, coerceCore, Lit.isNull, JV.isNull, hk, isScalarLit, parseLiteral, hadmFI, coerceFloat])
+  | floatInt hk =>
+    rename_i k
+    have hover : floatCatchesOverflow = true := coerceInt_branches_spec.2
+    cases hf : intFitsDouble k with
+    | true => exact congrArg _ (by simp [vfaCore, coerceCore, Lit.isNull, JV.isNull, hk, isScalarLit, parseLiteral, hadmFI, coerceFloat, hf])
+    | false =>
+      simp [vfaCore, coerceCore, Lit.isNull, JV.isNull, hk, isScalarLit, parseLiteral, hadmFI, coerceFloat, hf, hover,
+        floatChecked_nonfinite (c := .inf) (by simp), Except.toOption]
   | floatFloat hk => exact congrArg _ (by simp [vfaCore, coerceCore, Lit.isNull, JV.isNull, hk, isScalarLit, parseLiteral, hadmFF, coerceFloat])
   | string hk => exact congrArg _ (by simp [vfaCore, coerceCore, Lit.isNull, JV.isNull, hk, isScalarLit, parseLiteral, hadmS, parseString, pyStr])
   | boolean hk => exact congrArg _ (by simp [vfaCore, coerceCore, Lit.isNull, JV.isNull, hk, isScalarLit, parseLiteral, hadmB, parseBool, pyTruthy])
